@@ -20,6 +20,8 @@ EXTENDS Naturals, Integers, Sequences, FiniteSets, TLC
 NoMax == -1                       \* MaxObjectCount omitted on Open
 NoOt == -1                        \* OperationTimeout omitted on Open
 NoCoe == -1                       \* ContinueOnError omitted on Open (0 FALSE, 1 TRUE)
+NoFlt == 0                        \* no filter argument on Open
+AssocKinds == {3, 4, 5, 6}        \* open kinds that take filter arguments
 InvalidEnumCtx == 21              \* CIM_ERR_INVALID_ENUMERATION_CONTEXT
 
 (* open kind -> pull kind                                                  *)
@@ -57,6 +59,11 @@ Own(s, v) == {id \in Open(s) : s.ctx[id].srv = v}   \* sessions open ON server v
 (*  srv   the server (connection) the call is made on                      *)
 (*  ot    OperationTimeout of an Open (NoOt if omitted; 0 = never expire)  *)
 (*  coe   ContinueOnError of an Open (NoCoe / 0 / 1)                       *)
+(*  flt   filter class of an Open of the association kinds 3..6 (Role,    *)
+(*        ResultClass, AssocClass, ResultRole): 0 no filter argument,      *)
+(*        1 filter arguments that keep the whole unfiltered result,        *)
+(*        2 filter arguments that drop part (or all) of it; 0 for the      *)
+(*        other kinds                                                      *)
 (*  k     open kind (Open) / pull kind (Pull)                              *)
 (*  ns    namespace id (Open, RemoveNs)                                    *)
 (*  all   traditional result as a sequence of object ids (Open)            *)
@@ -72,6 +79,14 @@ Own(s, v) == {id \in Open(s) : s.ctx[id].srv = v}   \* sessions open ON server v
 (* served alike.  Environment assumption (Appendix A): the client issues   *)
 (* the next call of a session promptly, i.e. well within the smallest      *)
 (* positive OperationTimeout (1 s); under it no session may expire.        *)
+(* flt is not read by a clause either: "the corresponding traditional      *)
+(* operation" is the one called with the SAME arguments, so `all` is the   *)
+(* traditional result under the same filter and every clause that reads    *)
+(* `all` (OnlyObjectsOfTraditionalResult, NoEosWhileObjectsRemain, the     *)
+(* session invariants) is the filter requirement: an Open that ignores or  *)
+(* mixes up a filter argument delivers objects outside `all` (or loses     *)
+(* some).  The field makes the case distinction explicit so that the       *)
+(* generators produce all three classes for every association kind.        *)
 (***************************************************************************)
 
 OpenFails(s, e) ==
